@@ -250,6 +250,56 @@ def check_map(case, rec=None):
                 fails.append(fail("mismatch", "TensorMap.%s at voxel %s = %s expected %s" % (
                     name, idx, v[idx].ravel(), np.asarray(exp).ravel()), route="TensorMap." + name))
                 break
+    # ---- history on one map: derived maps read, then the UBI map replaced (three documented ways); every derived
+    #      map must then describe the new UBIs
+    if not fails:
+        perm = rng.permutation(len(T))
+        which2 = perm[which] if len(T) > 1 else which
+        nan2 = np.roll(nan, 1, axis=2)
+        ubi2 = np.empty(shape + (3, 3))
+        for idx in np.ndindex(*shape):
+            ubi2[idx] = T[which2[idx]][0] * (1.0 + 1e-3)            # also another cell: 0.1 % larger
+        ubi2[nan2] = np.nan
+        ok, m = guard(tm.TensorMap, {"UBI": ubi.copy(), "phase_ids": np.zeros(shape, int)})
+        if ok:
+            for name in ("UB", "mt", "unitcell", "B", "U"):
+                guard(lambda: getattr(m, name))
+            how = case["mseed"] % 3
+            try:
+                if how == 0:
+                    m.UBI = ubi2.copy()
+                elif how == 1:
+                    m["UBI"] = ubi2.copy()
+                else:
+                    m.add_map("UBI", ubi2.copy())
+            except Exception as e:
+                fails.append(exc_failure("TensorMap: replacing the UBI map", e))
+            else:
+                for name in ("UB", "mt", "unitcell", "B", "U"):
+                    ok, v = guard(lambda: getattr(m, name))
+                    if not ok:
+                        fails.append(exc_failure("TensorMap.%s after replacing UBI" % name, v))
+                        break
+                    v = np.asarray(v)
+                    bad = None
+                    if not np.isnan(v[nan2]).all() or np.isnan(v[~nan2]).any():
+                        bad = "NaN mask is not that of the new UBI map"
+                    else:
+                        for idx in np.ndindex(*shape):
+                            if nan2[idx]:
+                                continue
+                            _, UB, U, B, cell = T[which2[idx]]
+                            k = 1.0 + 1e-3
+                            exp = dict(UB=UB / k, U=U, B=B / k, unitcell=np.r_[np.asarray(cell[:3]) * k, cell[3:]],
+                                       mt=np.linalg.inv(B.T @ B) * k * k)[name]
+                            good = cell_close(v[idx], exp) if name == "unitcell" else close(v[idx], exp)
+                            if not good:
+                                bad = "voxel %s still describes the old UBI" % (idx,)
+                                break
+                    if bad:
+                        fails.append(fail("cache", "TensorMap.%s after the UBI map was replaced (%s): %s" %
+                                          (name, ["attribute", "item", "add_map"][how], bad), route="TensorMap.cache"))
+                        break
     if rec is not None:
         # a NaN voxel adjacent (6-neighbourhood) to a valid voxel
         adj = False
